@@ -22,7 +22,7 @@ from .appkit import LinkFormatError, attrs_key, lf_parse, ms_list, ms_sub, multi
 
 PROPERTY = "C17"
 LEVEL = "exploration"
-RUNS = {"quick": 1000, "thorough": 60000}
+RUNS = {"quick": 2500, "thorough": 60000}
 BUDGET = {"quick": 80, "thorough": 3000}
 RULE = ("seeded histories: a tree of up to 5 Sites (depth <= 3) with 3-12 leaves (plain, hidden, slow 0.05-0.6 s, "
         "path-capable terminals, WKCResource with and without impl-info link) over a path alphabet with shared "
